@@ -164,6 +164,7 @@ def check_profile(o, prof, mode, params, label, monitors_relevant=None, max_repo
     o.cov["disagreements_checked"] += len(aops)
     reported = 0
     relevant = [m for m in mon if monitors_relevant is None or m[1] in monitors_relevant]
+    diff_obj = None
     if diffs:
         i, op, a, b = diffs[0]
         hist = history_of(ops, answered_idx[i] if i < len(answered_idx) else len(ops) - 1, prof.start) if i < len(aops) else ops[-50:]
@@ -176,16 +177,14 @@ def check_profile(o, prof, mode, params, label, monitors_relevant=None, max_repo
         shrunk = core.ddmin(hist, still_differs, keep) if len(hist) < 400 else hist
         im, mo, mn = prof.replay(shrunk, tag="shrunk")
         hits = [m for m in mon_parse(mn or []) if monitors_relevant is None or m[1] in monitors_relevant]
-        obj = {"kind": "correspondence", "profile": label, "ops": shrunk, "implementation": im, "model": mo,
-               "monitors": mn, "first_diff": {"line": i, "request": op, "implementation": a, "model": b},
-               "replay_cmd": "bin/check %s --replay <this file>" % o.prop}
-        if hits:
-            o.violation("model and implementation disagree and a monitor of the property fails (%s)" % label, obj)
-        else:
-            obj["unchecked"] = "correspondence stream '%s' (implementation vs lean driver %s)" % (label, prof.driver)
-            o.violation("correspondence '%s' no longer holds: %s | impl: %s | model: %s" % (label, op, a, b), obj, no_input=True)
-        reported += 1
-    # ---- monitors on the implementation
+        diff_obj = {"kind": "correspondence", "profile": label, "ops": shrunk, "implementation": im, "model": mo,
+                    "monitors": mn, "first_diff": {"line": i, "request": op, "implementation": a, "model": b},
+                    "replay_cmd": "bin/check %s --replay <this file>" % o.prop}
+        if hits and not all(known(h[1], shrunk, h[2]) for h in hits):
+            o.violation("model and implementation disagree and a monitor of the property fails (%s): %s" % (label, hits[0][1]), diff_obj)
+            reported += 1
+            diff_obj = None
+    # ---- monitors on the implementation (the search for a failing input)
     seen_mon = set()
     for (ln, name, detail) in relevant:
         if name in seen_mon or reported >= max_report:
@@ -202,13 +201,18 @@ def check_profile(o, prof, mode, params, label, monitors_relevant=None, max_repo
         if text:
             o.known_finding(text)
             continue
-        if diffs:
-            continue  # already reported with the disagreement
         obj = {"kind": "monitor", "profile": label, "monitor": name, "detail": detail, "ops": shrunk,
                "implementation": im, "model": mo, "monitors": mn,
                "replay_cmd": "bin/check %s --replay <this file>" % o.prop}
+        if diff_obj is not None:
+            obj["disagreement"] = diff_obj["first_diff"]
         o.violation("monitor %s fails on the implementation: %s" % (name, detail), obj)
         reported += 1
+    if diff_obj is not None and reported == 0:
+        # the tie is broken and no failing input for the property was found anywhere in this run
+        i, op, a, b = diffs[0]
+        diff_obj["unchecked"] = "correspondence stream '%s' (implementation vs lean driver %s)" % (label, prof.driver)
+        o.violation("correspondence '%s' no longer holds: %s | impl: %s | model: %s" % (label, op, a, b), diff_obj, no_input=True)
     return {"ops": len(aops), "diffs": len(diffs), "monitor_hits": len(relevant)}
 
 
